@@ -6,7 +6,10 @@ sys.path.insert(0, os.path.join(root, 'lib')); sys.path.insert(0, root)
 base = json.load(open(os.path.join(root, 'tools', 'manifest_base.json')))
 props = [json.loads(l)['id'] for l in open(os.path.join(root, 'properties.jsonl')) if l.strip()]
 checks, na = [], []
+unclaimed = json.load(open(os.path.join(root, 'tools', 'unclaimed.json')))
 for pid in props:
+    if pid in unclaimed:
+        na.append(dict(property_id=pid, reason=unclaimed[pid])); continue
     f = os.path.join(root, 'checks', pid + '.py')
     meta = None
     if os.path.exists(f):
